@@ -80,7 +80,16 @@ def main():
     finally:
         sh("git -C /repo worktree remove --force %s" % WT)
         sh("rm -rf %s" % WT)
-    json.dump(results, open(os.path.join(VERIF, "selftest", "last_results.json"), "w"), indent=1)
+    out = os.path.join(VERIF, "selftest", "last_results.json")
+    if sel:
+        # a partial run updates the entries it executed and keeps the others
+        try:
+            old = json.load(open(out))
+        except Exception:
+            old = []
+        ids = set(r["id"] for r in results)
+        results = [r for r in old if r["id"] not in ids] + results
+    json.dump(results, open(out, "w"), indent=1)
     bad = [r for r in results if not r["ok"]]
     print("%d/%d as expected" % (len(results) - len(bad), len(results)))
     return 1 if bad else 0
